@@ -20,6 +20,17 @@ class QFSuite(Suite):
         n = 90 if tier == "quick" else 2500
         seqs = [self.gen_one(rng, i) for i in range(n)]
         seqs.append([("new", 1, 2, True), ("new", 1, 32, True), ("new", 1, 3, True), ("resize", 1, 2), ("resize", 1, 32)])
+        # growth through several automatic resizes, and a large merge
+        for _ in range(2 if tier == "quick" else 20):
+            q0 = rng.choice([3, 4])
+            seq = [("new", 1, q0, True), ("new", 2, 5, True)]
+            for _ in range(rng.randint(60, 170)):
+                seq.append(("add", 1, rng.randrange(1 << 32)))
+            for _ in range(rng.randint(10, 25)):
+                seq.append(("add", 2, rng.randrange(1 << 32)))
+            seq.append(("merge", 1, 2))
+            seq.append(("resize", 1, None))
+            seqs.append(seq)
         return seqs
 
     def gen_one(self, rng, i):
@@ -67,6 +78,8 @@ class QFSuite(Suite):
         d["rems"] = nats(qf._filter)
         res = call(qf.get_hashes, budget=BUDGET)
         d["hashes"] = nats(sorted(res[1])) if res[0] == "ok" else res[1]
+        # the real arrays must equal the canonical layout computed by the specification from the stored set
+        d["layout"] = d["meta"] + "/" + d["rems"] if res[0] == "ok" and len(res[1]) < qf.size else ("full" if res[0] == "ok" else res[1])
         return d
 
     def run_real(self, seq):
